@@ -116,6 +116,7 @@ class ECDH1PUAlgModel(JWEKeyAgreement):
             raise InvalidExchangeKeyError("A sender key is required for ECDH-1PU")
         assert recipient_key is not None
 
+        self.check_key_type(recipient_key)
         ephemeral_key = recipient_key.import_key(headers["epk"])
         sender_shared_key = recipient_key.exchange_derive_key(sender_key)
         ephemeral_shared_key = recipient_key.exchange_derive_key(ephemeral_key)
